@@ -238,4 +238,23 @@ XFlush(C, a, all) ==
     IF Len(a) # 1 THEN Fail(C)
     ELSE Res(IF all THEN EmptyStore ELSE DropDb(C.S, C.db), ROk)
 
+
+\* SWAPDB a b : the two databases exchange their contents (keys, values, deadlines) - for every caller.
+\* Indices are non-negative integers (tokens of kind i); anything else is an error that changes nothing.
+\* Deviation SwapDbConnsOnly (the code): the handler renumbers the TCP connections currently on a or b and
+\* leaves the data where it is - a caller that is not such a connection (the embedded API, a new or
+\* re-SELECTing connection, a restart) sees no exchange at all.
+\* decimal name of a database index (the store is keyed by the name the projection uses)
+RECURSIVE DbName(_)
+DbName(i) == IF i < 10 THEN <<"0", "1", "2", "3", "4", "5", "6", "7", "8", "9">>[i + 1]
+             ELSE DbName(i \div 10) \o DbName(i % 10)
+XSwapDb(C, a) ==
+    IF Len(a) # 3 THEN Fail(C)
+    ELSE IF ~(IsIntT(a[2]) /\ IsIntT(a[3])) THEN Fail(C)
+    ELSE IF a[2].i < 0 \/ a[3].i < 0 THEN Fail(C)
+    ELSE IF Dev(C, "SwapDbConnsOnly") THEN Res(C.S, ROk)
+    ELSE LET d1 == DbName(a[2].i)   d2 == DbName(a[3].i)
+             sw(d) == IF d = d1 THEN d2 ELSE IF d = d2 THEN d1 ELSE d
+         IN Res([x \in {<<sw(y[1]), y[2]>> : y \in DOMAIN C.S} |-> C.S[<<sw(x[1]), x[2]>>]], ROk)
+
 =============================================================================
